@@ -171,11 +171,15 @@ PROPERTIES = {
                 "walk of the input text must find a well-formed payload (single root key, one forwarding with id 1..4 and a registered "
                 "forwarding type, distinct action ids in {1,2} with a registered action type, no unknown field) and the parsed result must "
                 "satisfy the same; every memo is parsed three times (again after other memos, and on a second parser instance) and results / "
-                "error texts must be equal. Non-trivial = an accepted memo or a round-tripped payload; distinct by memo text.",
+                "error texts must be equal. Thorough tier adds a native coverage-guided campaign (go test -fuzz, 240 s, 16 workers) on a "
+                "light package that does not link the application, with the same oracle inside the target (no panic, acceptance => "
+                "well-formed, purity over 7 parses on two parser instances), seeded with valid memos of every route and hostile constants. "
+                "Non-trivial = an accepted memo, a round-tripped payload, or a fuzz corpus entry that reached new coverage; distinct by memo text.",
         "assumptions": COMMON_ASSUMPTIONS + ["repeated JSON keys are judged only by the purity clause (the statement does not say which occurrence counts)"],
         "tests": [
             {"test": "TestC15RoundTrip", "quick": 5000, "thorough": 2000000},
-            {"test": "TestC15Acceptance", "quick": 15000, "thorough": 6000000},
+            {"test": "TestC15Acceptance", "quick": 15000, "thorough": 3000000},
+            {"test": "FuzzParser", "kind": "fuzz", "pkg": "light", "fuzztime_s": 240, "tiers": ["thorough"]},
         ],
     },
     "C19": {
